@@ -42,3 +42,55 @@ fn vk_c06_canary_plies() {
     kani::assume(1 <= n && n <= 1000);
     assert!(plies_from_fullmove_number(n, Player::White) % 4 == 0); // must FAIL
 }
+
+// ---- assembling the board from the eight parsed ranks (closure of fen_position, copied verbatim on every run) ----
+//@@ closure: chess/fen/fen_parser.rs :: fn fen_position :: |(line8, line7, line6, line5, line4, line3, line2, line1)| => fn fen_position__closure((line8, line7, line6, line5, line4, line3, line2, line1): (FenRank, FenRank, FenRank, FenRank, FenRank, FenRank, FenRank, FenRank)) -> Board
+
+fn any_rank(len: usize) -> FenRank {
+    let mut v: Vec<Option<Piece>> = Vec::new();
+    let mut i = 0;
+    while i < 9 {
+        if i < len {
+            v.push(if kani::any() { Some(Piece::WHITE_ROOK) } else { None });
+        }
+        i += 1;
+    }
+    FenRank(v)
+}
+
+//@ obligation: C06.position.assemble
+//@ domain: complete
+//@ functions: chess/fen/fen_parser.rs::fen_position
+//@ timeout: 1800
+//@ mem_gb: 10
+//@ note: the code that assembles the board from the eight parsed ranks (closure of fen_position): given eight ranks of EXACTLY eight squares each -- what fen_line's width check guarantees -- it cannot panic (length assertion, array conversion) and places rank r / file f at square r*8+f (first rank of the text = rank 8)
+//@ assumes: fen_line rejects every rank that does not describe exactly eight squares (reviewed width check in fen_line; the nom combinators are outside CBMC's reach)
+#[kani::proof]
+#[kani::unwind(66)]
+fn vk_c06_position_assemble() {
+    let r = [any_rank(8), any_rank(8), any_rank(8), any_rank(8), any_rank(8), any_rank(8), any_rank(8), any_rank(8)];
+    let f: usize = kani::any();
+    let rk: usize = kani::any();
+    kani::assume(f < 8 && rk < 8);
+    // r[0] is the first rank in the text, i.e. rank 8
+    let want = r[7 - rk].0[f];
+    let [a, b, c, d, e, g, h, i] = r;
+    let board = fen_position__closure((a, b, c, d, e, g, h, i));
+    kani::cover!(want.is_some());
+    assert!(board.piece_at(Square::from_index((rk * 8 + f) as u8)) == want);
+}
+
+//@ obligation: C06.position.widths_unchecked
+//@ status: experimental
+//@ domain: bounded(first rank of 7..=9 squares, the others of 8)
+//@ functions: chess/fen/fen_parser.rs::fen_position
+//@ timeout: 1800
+//@ mem_gb: 10
+//@ note: the same closure when the first rank has 7, 8 or 9 squares: it must not panic whatever the parser hands it.  Refuted on the pinned tree (assert_eq!(len, 64) fails for '44p/8/8/8/8/8/8/8'), which is the crash repaired by the width check in fen_line; kept unregistered to document the weakest precondition of the closure.
+#[kani::proof]
+#[kani::unwind(75)]
+fn vk_c06_position_widths_unchecked() {
+    let l0: usize = kani::any();
+    kani::assume(7 <= l0 && l0 <= 9);
+    let _ = fen_position__closure((any_rank(l0), any_rank(8), any_rank(8), any_rank(8), any_rank(8), any_rank(8), any_rank(8), any_rank(8)));
+}
